@@ -22,3 +22,7 @@ func readerReceive(e *actor.Engine, stream remote.DRPCRemote_ReceiveStream) erro
 }
 
 func unwrapDeliver(msg any) (wireDeliver, bool) { return remote.VerifUnwrapDeliver(msg) }
+
+func sharedReader(e *actor.Engine) func(stream remote.DRPCRemote_ReceiveStream) error {
+	return remote.VerifSharedReader(e)
+}
